@@ -661,6 +661,17 @@ def case_clu_abb(run: Run, rng):
         ctx.count("updated-site-info")
         si = gen_site_info(rng, 0, keys=run.last_keys)
     run.last_keys = list(si)
+    # a share of station codes outside the property's quantifier and outside cluInRange (model vs code only, no oracle)
+    beyond = None
+    if rng.random() < 0.1:
+        beyond = rng.choice(["long-key", "hash-key", "blank-key", "inner-blank-key"])
+        k = rng.choice(sorted(si))
+        nk = {"long-key": k + "x", "hash-key": k[:2] + "#" + k[3:], "blank-key": "    ", "inner-blank-key": " " + k[1:]}[beyond]
+        if nk not in si:
+            si = {(nk if kk == k else kk): v for kk, v in si.items()}
+            ctx.count(f"bernese_clu-beyond-range:{beyond}")
+        else:
+            beyond = None
     case = {"writer": "bernese_clu", "stations": sorted(si)}
     ctx.case(case, nontrivial=True)
     ctx.count("bernese_clu")
@@ -679,6 +690,10 @@ def case_clu_abb(run: Run, rng):
         parser_vs_model(run, "bernese_clu", "cluparse", CLU_NAMES, case, text, run.last_path, True, rng)
         in_range = ht is not None and drv.ask1(f"c17 clurange {','.join(hexs(t) for t in ht)} " + (",".join(hexs(k) for k in si) or "[]")) == "1"
         ctx.count("clu-roundtrip-range:" + ("inside" if in_range else "outside"))
+    if beyond:
+        run.last_keys = None
+        return
+    if body is not None:
         with quiet():
             try:
                 back = parsers.parse_file("bernese_clu", run.last_path).as_dict()
